@@ -289,6 +289,8 @@ class FrameDomain(EventsMixin, Domain):
         return ('len', a0[1])
       if isinstance(a0, tuple) and a0[0] == 'classes':
         return ('len', 'Classes')
+      if is_idx(a0) and a0[2] is not None:
+        return ('len', a0[2])     # one entry per element of its layout frame
       return UNK
     if dotted == 'builtins.range' and len(args) == 1 and \
             isinstance(a0, tuple) and a0[0] == 'len':
@@ -411,6 +413,11 @@ class FrameDomain(EventsMixin, Domain):
           return UNK
         if q is None:
           qf = d[1]
+        elif qf == d[1]:
+          # the fitted set queried against itself with an explicit X: every
+          # point comes back as its own neighbour (the X-less query is the
+          # one that excludes it)
+          self.events.append(('self-query', self.site(node)))
         return ('idx', d[1], qf, frozenset(), None)
       return UNK
     if isinstance(d, tuple) and d[0] == 'set':
